@@ -1285,6 +1285,11 @@ func collectTextNodes(parent *Inline, r *inlineByteReader, end int, textKind Inl
 			}
 		}
 
+		if r.pos >= end {
+			// A backslash was the last byte of the text:
+			// do not read (or jump to the next line) beyond it.
+			break
+		}
 		if !r.next() {
 			break
 		}
